@@ -251,6 +251,7 @@ func main() {
 	prop := flag.String("prop", "C01", "property id")
 	tier := flag.String("tier", "quick", "quick|thorough")
 	replay := flag.String("replay", "", "replay a violation file instead of searching")
+	only := flag.String("scenario", "", "only scenarios whose name contains this (diagnostics; evidence then covers only those)")
 	flag.Parse()
 	if os.Getenv("VERIF_TIER") != "" && *tier == "" {
 		*tier = os.Getenv("VERIF_TIER")
@@ -271,6 +272,9 @@ func main() {
 	var perScenario []map[string]any
 	for _, sc := range scs {
 		sc := sc
+		if *only != "" && !strings.Contains(sc.Name, *only) {
+			continue
+		}
 		var deadline time.Time
 		if sc.MaxTime > 0 {
 			deadline = time.Now().Add(sc.MaxTime)
